@@ -11,6 +11,7 @@ import (
 	"log"
 	"os"
 	"path/filepath"
+	"strings"
 	"time"
 
 	"github.com/spq/pkappa2/internal/index"
@@ -89,6 +90,10 @@ func (Engine) Generate(prop, tier string, seed, run uint64) json.RawMessage {
 		wReset = 17 // resets followed by more stores
 	}
 	cts := []string{"", "", "", "text/plain", "application/json", "x"}
+	if r.IntN(5) == 0 {
+		// a content type whose length needs a two-byte prefix
+		cts = append(cts, "multipart/form-data; boundary="+strings.Repeat("-", 100+r.IntN(200))+"x")
+	}
 	// a quarter of the runs follow a phase script instead of a uniform mix:
 	// fill, (reset), fill more than before, free a contiguous group of records
 	// (the oldest or the youngest), store again with a low compaction
